@@ -231,8 +231,8 @@ KNOWN_PREDICATES = {"beat_sliver_time_lost": _beat_sliver_time_lost}
 
 SUBS = [
     Sub("exhaustive-halfbeat", check, enumerate=enum_cases, shards={"quick": 8, "thorough": 16}, exhaustive=True),
-    Sub("random", check, strategy=random_case, examples={"quick": 2000, "thorough": 12000}, shards={"quick": 4, "thorough": 16}),
-    Sub("sliver", check, strategy=sliver_case, examples={"quick": 1500, "thorough": 8000}, shards={"quick": 4, "thorough": 16}),
+    Sub("random", check, strategy=random_case, examples={"quick": 2500, "thorough": 12000}, shards={"quick": 8, "thorough": 16}),
+    Sub("sliver", check, strategy=sliver_case, examples={"quick": 2000, "thorough": 8000}, shards={"quick": 8, "thorough": 16}),
 ]
 
 MANIFEST = dict(
